@@ -186,12 +186,26 @@ def scope_ast(toks, context, prelude):
 CONTEXTS = [(c, p) for c in ('top', 'block', 'fun', 'meth') for p in (True, False)]
 
 
+def shadow_relevant(toks):
+    depth = 0
+    for i, x in enumerate(toks):
+        if x == 'begin':
+            depth += 1
+        elif x == 'end':
+            depth -= 1
+        elif x.startswith('let') and depth > 0:
+            v = x[3]
+            if any(y in ('let' + v, 'set' + v, 'read' + v) for j, y in enumerate(toks) if j != i):
+                return True
+    return False
+
+
 def c12(tier):
     chk = Check('C12', tier)
-    maxlen = tier_sizes(tier, 3, 5)
+    maxlen = tier_sizes(tier, 4, 5)
     chk.rule = ('TLC enumerates on the fly every statement sequence (MC_Scope: let/assign/read of x and y, call f, call o.m, begin/end to depth 2, if-true, if-false-else, '
                 'while-once) up to %d statements; each is placed at top level, in a top-level block, in a function body and in a method body, with and without global x, y '
-                '(all 8 placements up to length %d, one placement round-robin beyond), written literals numbered; TLC runs the README semantics FMLSource on the AST (scope '
+                '(all 8 placements up to length %d; beyond: thorough one placement round-robin, quick two placements for every length-4 sequence in which a block-local let meets another mention of the same name), written literals numbered; TLC runs the README semantics FMLSource on the AST (scope '
                 'stack, LeaveRestores and CallIsolated checked in every state) and the real pipeline must print the same values and stop at the same point. '
                 'distinct_nontrivial = distinct programs judged inside the fragment.' % (maxlen, 4 if tier == 'thorough' else 3))
     exe = build('debug')
@@ -205,7 +219,15 @@ def c12(tier):
     full_len = 4 if tier == 'thorough' else 3
     for si, toks in enumerate(seqs):
         nst = len([t for t in toks if t != 'end'])
-        places = CONTEXTS if nst <= full_len else [CONTEXTS[si % len(CONTEXTS)]]
+        if tier == 'thorough':
+            places = CONTEXTS if nst <= full_len else [CONTEXTS[si % len(CONTEXTS)]]
+        elif nst <= full_len:
+            places = CONTEXTS
+        elif shadow_relevant(toks):
+            # quick tier, length 4: the sequences in which a block-local let meets another mention of the same name (shadowing, leaving scopes)
+            places = [('fun', True), ('block', True)] if si % 2 == 0 else [('meth', True), ('top', True)]
+        else:
+            continue
         for (c, p) in places:
             ast = scope_ast(toks, c, p)
             progs.append({'name': 'scope:%s/%s/%s' % (' '.join(toks), c, 'globals' if p else 'noglobals'), 'text': unparse(ast), 'ast': strip_marks(ast)})
